@@ -170,6 +170,7 @@ impl Sub for Product {
         let tb = ntt(&c.b);
         ensure!(ta.iter().chain(tb.iter()).all(|&x| (0..Q as i16).contains(&x)), "ntt:range", "transform output outside [0,q)");
         ensure!(intt(&ta) == c.a, "ntt:inverse", "n = {}: intt(ntt(a)) != a", n);
+        ensure!(ntt(&c.a) == ta, "ntt:not-repeatable", "n = {}: a second ntt(a) right after the first gives a different result", n);
         let prod = intt(&ntt_hadamard_mul(&ta, &tb));
         let want = zq::negacyclic_mul(&to_i64(&c.a), &to_i64(&c.b));
         let pos = prod.iter().zip(want.iter()).position(|(x, y)| *x as i64 != *y);
